@@ -205,7 +205,7 @@ def r3b_constant_subscripts(ctx, chk, rule="C06.3b"):
                 # the initial-state convention; a game without states is rejected by check_game (min()/max() of empty lists raise ValueError,
                 # and init_states compares the number of nodes built with num_states)
                 chk.ok(rule, where, "`%s[%d]`: initial-state convention; an empty state list cannot reach the solver (check_game/init_states dominate, C09.4)" % (text, node.slice.value))
-            elif isinstance(base, ast.ListComp):
+            elif isinstance(base, ast.ListComp) or (isinstance(base, ast.Name) and _single_def_listcomp(ctx, f, node, base.id) is not None):
                 ok = _filter_nonempty_argument(ctx, f, node)
                 if ok:
                     chk.ok(rule, where, "`%s[0]`: %s" % (text, ok))
@@ -246,10 +246,24 @@ def _dominated_by_nonempty_test(ctx, f, node, path):
     return False
 
 
+def _single_def_listcomp(ctx, f, node, name):
+    cfg = ctx.cfg(f)
+    defs = cfg.defs_reaching(node, name)
+    if len(defs) == 1:
+        d = next(iter(defs))
+        if isinstance(d, ast.Assign) and isinstance(d.value, ast.ListComp):
+            return d.value
+    return None
+
+
 def _filter_nonempty_argument(ctx, f, node):
     """[s for s in S if s[0] in strategies][0] with `strategies` non-empty by a dominating test and computed as an
     arg-set over the same S by the only caller."""
     comp = node.value
+    if isinstance(comp, ast.Name):
+        comp = _single_def_listcomp(ctx, f, node, comp.id)
+        if comp is None:
+            return None
     if len(comp.generators) != 1 or len(comp.generators[0].ifs) != 1:
         return None
     test = comp.generators[0].ifs[0]
@@ -276,8 +290,12 @@ def _filter_nonempty_argument(ctx, f, node):
     arg = call.args[pos] if len(call.args) > pos else None
     if not isinstance(arg, ast.Name):
         return None
-    for t in C02._sub(k.ret):
-        if t[0] == "res" and t[2] == "worst_strategies" or t[0] == "res":
+    cands = list(C02._sub(k.ret))
+    for L in k.sx.loops.values():
+        for u in list(L.filters or []) + list(L.init.values()) + [L.source]:
+            cands += C02._sub(u)
+    for t in cands:
+        if t[0] in ("res", "compr"):
             kf = k.kfold(t)
             if kf is not None and kf.kind == "ARGSET" and kf.source == SELF_NEXT and kf.label == ("p",):
                 return "`%s` is non-empty (dominating test) and the only caller (%s) passes an arg-set of labels drawn from the same successor list, so the filter keeps at least one element" % (strat, g.short)
@@ -319,34 +337,41 @@ def r3e_builtin_on_empty(ctx, chk, rule="C06.3e"):
 
 
 def _ret_guarded_nonempty(k, call_t):
-    """The call term occurs in the return value only under a non-emptiness condition of self.next_states."""
+    """Every evaluation of the call term (in the return value, inside comprehensions / loops it refers to) happens
+    under a non-emptiness condition of self.next_states."""
     nonempty = (("truthy", SELF_NEXT), simp(("cmp", "!=", C(0), ("call", "len", (SELF_NEXT,), ()))), simp(("cmp", "<", C(0), ("call", "len", (SELF_NEXT,), ()))))
     empty = tuple(simp(("not", c)) for c in nonempty)
+    seen_loops = set()
+    found = []
 
     def walk(t, guarded):
+        if not isinstance(t, tuple) or not t:
+            return
+        if not isinstance(t[0], str):
+            for x in t:
+                walk(x, guarded)
+            return
         if t == call_t:
-            return guarded
-        if not isinstance(t, tuple) or not t or not isinstance(t[0], str):
-            return True
+            found.append(guarded)
+            return
         if t[0] == "ite":
             c = t[1]
-            g_then = guarded or c in nonempty
-            g_else = guarded or c in empty
-            return walk(t[2], g_then) and walk(t[3], g_else) and walk(c, guarded)
-        ok = True
+            walk(c, guarded)
+            walk(t[2], guarded or c in nonempty)
+            walk(t[3], guarded or c in empty)
+            return
+        if t[0] in ("compr", "res") and t[1] in k.sx.loops and (t[1], guarded) not in seen_loops:
+            seen_loops.add((t[1], guarded))
+            L = k.sx.loops[t[1]]
+            for y in ([L.elt] if L.elt is not None else []) + list(L.filters or []) + [L.source] + list(L.update.values()) + list(L.init.values()):
+                walk(y, guarded)
         for x in t[1:]:
             if isinstance(x, tuple):
-                if x and isinstance(x[0], str):
-                    ok = ok and walk(x, guarded)
-                else:
-                    for y in x:
-                        if isinstance(y, tuple):
-                            ok = ok and (walk(y, guarded) if y and isinstance(y[0], str) else all(walk(z, guarded) for z in y if isinstance(z, tuple)))
-        return ok
-    if not any(x == call_t for x in C02._sub(k.ret)):
-        # used through a comprehension/loop: look at the path condition of effects
+                walk(x, guarded)
+    walk(k.ret, False)
+    if not found:
         return None
-    return "dominating `if not self.next_states`" if walk(k.ret, False) else None
+    return "dominating non-emptiness test of self.next_states" if all(found) else None
 
 
 def r3c_division(ctx, chk, rule="C06.3c"):
